@@ -61,6 +61,10 @@ def scenarios(tier, seed=0):
     for ck, smt in itertools.product(("potato.2", "tomato.2", "rice.2", "cotton.2", "wheat.15"), ([10, 85, 85, 85], [80, 60, 40, 20])):
         c = A._b(crop=ck, iwc="FC", word="dry", win="w2", soil="SandyLoam")
         yield {"kind": "irr", "config": c, "irr": irr_spec(1, {"SMT": smt}, None, 8, 10000, 100)}
+    # a threshold strategy left at its documented default thresholds, created after ANOTHER default strategy object was tuned in place
+    for word in ("dry", "normal"):
+        c = A._b(crop="maize.2", iwc="FC", word=word, win="w2", soil="SandyLoam")
+        yield {"kind": "irr", "config": c, "irr": {"method": 1, "kw": {"MaxIrr": 25, "MaxIrrSeason": 10000, "AppEff": 100}, "default_smt_after_inplace_edit": 30}}
     # schedule tables built other ways than a datetime64 column: the docstring's DataFrame([dates, depths]).T (object-dtype columns of
     # timestamps), the same from date strings, rows listed latest first
     for style, sch, mi in itertools.product(("object_ts", "object_str", "reversed"), ("inseason", "big", "outside", "beyond_window"), (25, 5)):
